@@ -33,6 +33,8 @@ PRELUDE = r'''
 #include "nmtools/array/index/outer.hpp"
 #include "nmtools/array/index/compute_strides.hpp"
 #include "nmtools/array/index/reshape.hpp"
+#include "nmtools/utility/ct_map.hpp"
+#include "nmtools/utility/ct_digraph.hpp"
 #include "nmtools/utility/isequal.hpp"
 #include "nmtools/utility/cast.hpp"
 #include "nmtools/utl.hpp"
@@ -216,3 +218,20 @@ def _bound_witnesses():
     bw("concatenate", "shape_concatenate(bounded (2,3), bounded (2,3), axis 0): bounds (4,3)", "clip_shape& s", "nm::get<1>(nm::index::shape_concatenate(s, s, 0_ct))", "4,3")
     return out
 WITNESSES += _bound_witnesses()
+
+# ---------------- C14: the compile-time map / digraph under the compute graph: merging a graph re-adds nodes that are already present -
+#                  that must keep the node and the edges recorded so far (one node per id, edges exactly those added)
+WITNESSES += [
+ W("c14_ctmap_insert_keeps_existing", "C14", "pass", "ct_map::insert of a present key keeps the stored value and the size",
+   "void f(){ constexpr auto m = nm::utility::ct_map().insert(1_ct, 10_ct).insert(2_ct, 20_ct); constexpr auto m2 = m.insert(1_ct, 99_ct); "
+   "static_assert(decltype(m2.size())::value == 2); static_assert(decltype(m2.at(1_ct))::value == 10); static_assert(decltype(m2.at(2_ct))::value == 20); }"),
+ W("c14_ctmap_update_replaces", "C14", "pass", "ct_map::update of a present key replaces the value, keeps the other entry and the size",
+   "void f(){ constexpr auto m = nm::utility::ct_map().insert(1_ct, 10_ct).insert(2_ct, 20_ct); constexpr auto m2 = m.update(1_ct, 99_ct); "
+   "static_assert(decltype(m2.size())::value == 2); static_assert(decltype(m2.at(1_ct))::value == 99); static_assert(decltype(m2.at(2_ct))::value == 20); }"),
+ W("c14_digraph_readd_node_keeps_edges", "C14", "pass", "ct_digraph::add_node of a node that is already present keeps its out-edges (graphs are merged by re-adding nodes)",
+   "void f(){ constexpr auto g = nm::utility::ct_digraph().add_node(0_ct, 7_ct).add_node(1_ct, 8_ct).add_edge(0_ct, 1_ct); constexpr auto g2 = g.add_node(0_ct, 7_ct); "
+   "static_assert(decltype(g2.size())::value == 2); static_assert(meta::len_v<decltype(g2.out_edges(0_ct))> == 1); static_assert(meta::len_v<decltype(g2.out_edges())> == 1); }"),
+ W("c14_digraph_edges_exact", "C14", "pass", "ct_digraph: out_edges() lists exactly the edges added, a repeated add_edge adds nothing",
+   "void f(){ constexpr auto g = nm::utility::ct_digraph().add_node(0_ct, 7_ct).add_node(1_ct, 8_ct).add_node(2_ct, 9_ct).add_edge(0_ct, 2_ct).add_edge(1_ct, 2_ct).add_edge(0_ct, 2_ct); "
+   "static_assert(decltype(g.size())::value == 3); static_assert(meta::len_v<decltype(g.out_edges())> == 2); static_assert(meta::len_v<decltype(g.out_edges(2_ct))> == 0); }"),
+]
